@@ -109,18 +109,27 @@ func init() {
 		}
 		for _, rel := range regoFiles {
 			r := map[string]string{}
-			for _, spelling := range []string{"relative", "absolute"} {
-				p := rel
-				if spelling == "absolute" {
-					p = filepath.Join(root, rel)
+			// every spelling names the same file; the working directory differs too (a relative name is relative
+			// to the working directory, not to the project root)
+			type sp struct{ name, cwd, path string }
+			sps := []sp{
+				{"relative", root, rel},
+				{"absolute", root, filepath.Join(root, rel)},
+				{"dot-relative", root, "./" + rel},
+				{"from-file-dir", filepath.Dir(filepath.Join(root, rel)), filepath.Base(rel)},
+				{"from-parent", filepath.Dir(root), filepath.Join(filepath.Base(root), rel)},
+			}
+			for _, x := range sps {
+				if err := os.Chdir(x.cwd); err != nil {
+					return nil, err
 				}
-				in, err := rules.InputFromPaths([]string{p}, root, vm)
+				in, err := rules.InputFromPaths([]string{x.path}, root, vm)
 				if err != nil {
-					r[spelling] = "parse-error"
+					r[x.name] = "parse-error"
 					continue
 				}
 				for _, m := range in.Modules {
-					r[spelling] = verName(m.RegoVersion())
+					r[x.name] = verName(m.RegoVersion())
 				}
 			}
 			res[rel] = r
